@@ -98,7 +98,7 @@ def gen_conn(rng, tier, mult):
         r = rng.fork("c%d" % ci)
         ln = r.range(0, 12)
         s = "".join(r.choice("FSEH" if r.chance(1, 2) else "FEEH") for _ in range(ln)) or "-"
-        t = r.choice(["-", "1", "250", "1999", "60000"])
+        t = r.choice(["-", "1", "250", "1999", "60000", "0", "0"])     # {0, 0} is a timeout too: give up on an address at once
         ops = ["connect %s %s" % (t, s)]
         if r.chance(1, 6):
             # the connecting sockets get the lowest descriptor numbers (a daemon that has closed stdin/stdout/stderr): 0, 1, 2, ...
